@@ -520,6 +520,166 @@ pub fn literal(rng: &mut Rng, count: u64, emit: Emit) {
     }
 }
 
+pub fn hex_of(bytes: &[u8]) -> String { bytes.iter().map(|b| format!("{:02x}", b)).collect() }
+
+/// a small text of `n` lines mixing ASCII, multi-byte characters, blank lines, LF / CRLF / bare CR
+pub fn random_lines(rng: &mut Rng, maxlines: u64) -> String {
+    let pieces: [&str; 14] = ["wire x : 8;", "x = y + 1;", "", "  ", "\t", "é = 1", "# c", "€€", "a", "Stat = STAT_AOK; pc = 0;", "ab\u{301}c", "[ 1 : 2; ]", "/* c", "*/"];
+    let eols: [&str; 6] = ["\n", "\n", "\n", "\r\n", "\n\n", "\r"];
+    let n = rng.below(maxlines + 1);
+    let mut t = String::new();
+    for _ in 0..n {
+        t.push_str(*rng.pick(&pieces[..]));
+        if rng.chance(1, 3) { t.push(' '); t.push_str(*rng.pick(&pieces[..])); }
+        t.push_str(*rng.pick(&eols[..]));
+    }
+    if rng.chance(1, 3) { t.push_str(*rng.pick(&pieces[..])); }
+    t
+}
+
+/// S-REGION: `FileContents::show_region` / `line_number_and_bounds` / `range` on small texts and arbitrary spans
+pub fn region(rng: &mut Rng, count: u64, emit: Emit) {
+    use hclrs::FileContents;
+    for _ in 0..count {
+        let pre: String = match rng.below(6) { 0 => String::from("\n"), 1 => String::from("const A = 1;\nconst B = 2;\n"), 2 => String::from("x\ny"),
+            3 => String::new(), 4 => String::from("é\n\n"), _ => String::from("const A = 1;\n") };
+        let user = random_lines(rng, 6);
+        let name: &str = *rng.pick(&["t.hcl", "é.hcl", "a b.hcl"][..]);
+        let total = pre.len() + user.len();
+        let (start, end): (usize, usize) = match rng.below(10) {
+            0 => (rng.below(total as u64 + 3) as usize, rng.below(total as u64 + 3) as usize),
+            1 => (rng.below(total as u64 + 1) as usize, usize::MAX),
+            2 => (usize::MAX, usize::MAX),
+            3 => (total, total),
+            4 => { let s = rng.below(total as u64 + 1) as usize; (s, s) }
+            _ => { let s = pre.len() + rng.below(user.len() as u64 + 1) as usize; (s, s + rng.below(7) as usize) }
+        };
+        let (p2, u2, n2) = (pre.clone(), user.clone(), name.to_string());
+        let res = std::panic::catch_unwind(move || {
+            let fc = FileContents::new_from_data(&p2, &u2, &n2);
+            let shown = fc.show_region(start, end);
+            let clamp = |x: usize| std::cmp::min(x, p2.len() + u2.len());
+            let (a, b, c) = fc.line_number_and_bounds(clamp(start));
+            let r = fc.range(clamp(start), clamp(end));
+            format!("ok {} lnb={}:{}:{} range={}", hex_of(shown.as_bytes()), a, b, c, hex_of(r.as_bytes()))
+        });
+        let result = match res { Ok(s) => s, Err(_) => String::from("PANIC") };
+        let bl = |b: &[u8]| b.iter().map(|x| x.to_string()).collect::<Vec<_>>().join(" ");
+        emit(format!("(region (pre {}) (user {}) (name {}) (start {}) (end {}))", bl(pre.as_bytes()), bl(user.as_bytes()), bl(name.as_bytes()), start, end), result);
+    }
+}
+
+/// the located regions of a rendered diagnostic text: header `     -> file:line` with the rows under it
+pub fn regions_of(text: &str) -> Vec<String> {
+    let mut out: Vec<String> = Vec::new();
+    let mut cur: Option<String> = None;
+    for line in text.split_inclusive('\n') {
+        let is_row = line.starts_with("     |") || {
+            let b = line.as_bytes();
+            b.len() >= 7 && &b[4..7] == b" | " && b[..4].iter().all(|c| *c == b' ' || c.is_ascii_digit()) && b[3].is_ascii_digit()
+        };
+        if line.starts_with("     -> ") {
+            if let Some(c) = cur.take() { out.push(c); }
+            cur = Some(String::from(line));
+        } else if is_row && cur.is_some() {
+            cur.as_mut().unwrap().push_str(line);
+        } else if let Some(c) = cur.take() { out.push(c); }
+    }
+    if let Some(c) = cur.take() { out.push(c); }
+    out
+}
+
+/// S-DIAG: one fault planted at a known line and column of an otherwise valid program; the rendered diagnostics
+/// of the real code (parse_y86_hcl + Error::format_for_contents, real preamble) are cut into their located regions
+pub fn diag(rng: &mut Rng, count: u64, emit: Emit) {
+    use hclrs::{parse_y86_hcl, FileContents};
+    use std::panic::{catch_unwind, AssertUnwindSafe};
+    let pre = hclrs::verif_hooks::y86_preamble();
+    for _ in 0..count {
+        let eol: &str = if rng.chance(1, 4) { "\r\n" } else { "\n" };
+        let filler: [&str; 7] = ["", "# a comment", "   ", "/* block */", "// c style", "/* two", "   lines */ "];
+        let mut lines: Vec<String> = Vec::new();
+        let mut push_fill = |rng: &mut Rng, lines: &mut Vec<String>| {
+            for _ in 0..rng.below(3) {
+                let f = *rng.pick(&filler[..]);
+                if f == "/* two" { lines.push(String::from("/* two")); lines.push(String::from("   lines */ ")); }
+                else if f != "   lines */ " { lines.push(String::from(f)); }
+            }
+        };
+        let base: [&str; 8] = ["wire a : 8;", "a = 1;", "wire b : 4;", "b = 2;", "pc = 0;", "Stat = STAT_AOK;", "wire c : 8;", "c = a;"];
+        let kind = rng.below(14);
+        let indent: String = " ".repeat(rng.below(5) as usize);
+        let lead: &str = *rng.pick(&["", "", "a = 1; ", "/* c */ "][..]);
+        // (fault line, column of the offending span within the line, its length, kind name, line replaced or inserted)
+        let longname: String = format!("undeclared_{}", "x".repeat(rng.below(30) as usize));
+        let (fault, tok_col, tok_len, kname, replaces): (String, usize, usize, &str, Option<&str>) = match kind {
+            0 => { let l = format!("{}c = {} + 1;", indent, longname); (l, indent.len() + 4, longname.len(), "undeclared-read", Some("c = a;")) }
+            1 => { let l = format!("{}c = 1 + ;", indent); (l, indent.len() + 8, 1, "unexpected-token", Some("c = a;")) }
+            2 => { let l = format!("{}c = b;", indent); (l, indent.len() + 4, 1, "width-mismatch", Some("c = a;")) }
+            3 => { let l = format!("{}wire d : 8; c = d;", indent); (l, indent.len() + 5, 5, "never-assigned", Some("c = a;")) }
+            4 => { let l = format!("{}c = 0b102;", indent); (l, indent.len() + 8, 1, "bad-literal", Some("c = a;")) }
+            5 => { let l = format!("{}wire a : 8;", indent); (l, indent.len() + 5, 5, "redeclared", None) }
+            6 => { let l = format!("{}c = [ a == 1 : 2; ];", indent); (l, indent.len() + 4, 15, "no-default", Some("c = a;")) }
+            7 => { let l = format!("{}c = a $ 1;", indent); (l, indent.len() + 6, 1, "bad-character", Some("c = a;")) }
+            8 => { let l = format!("{}c = [ a == 1 : a; 1 : b; ];", indent); (l, indent.len() + 22, 1, "case-width-mismatch", Some("c = a;")) }
+            11 => { let l = format!("{}c = 0x100000000000000000000000000000000;", indent); (l, indent.len() + 4, 35, "too-wide-literal", Some("c = a;")) }
+            12 => { let l = format!("{}register qR {{ v : 8 = 0b101; }}", indent); (l, indent.len() + 22, 5, "register-default-width", None) }
+            9 => { let l = format!("{}zz = 1;", indent); (l, indent.len(), 2, "undeclared-assigned", None) }
+            _ => { let l = format!("{}c = a[4..2];", indent); (l, indent.len() + 4, 7, "bad-slice", Some("c = a;")) }
+        };
+        let _ = lead;
+        // assemble: declarations first so that the fault is the only one
+        let mut order: Vec<String> = Vec::new();
+        for b in base.iter() {
+            if Some(*b) == replaces { continue; }
+            order.push(String::from(*b));
+        }
+        // the statements may come in any order except that the file stays valid; shuffle a little
+        for i in (1..order.len()).rev() { let j = rng.below(i as u64 + 1) as usize; order.swap(i, j); }
+        let fault_at = rng.below(order.len() as u64 + 1) as usize;
+        let mut fault_line_no = 0usize;
+        push_fill(rng, &mut lines);
+        for (i, st) in order.iter().enumerate() {
+            if i == fault_at { lines.push(fault.clone()); fault_line_no = lines.len(); push_fill(rng, &mut lines); }
+            lines.push(st.clone());
+            push_fill(rng, &mut lines);
+        }
+        if fault_at == order.len() { lines.push(fault.clone()); fault_line_no = lines.len(); if rng.chance(1, 2) { push_fill(rng, &mut lines); } }
+        let mut user = String::new();
+        let mut fault_off = 0usize;
+        for (i, l) in lines.iter().enumerate() {
+            if i + 1 == fault_line_no { fault_off = user.len(); }
+            user.push_str(l);
+            if i + 1 < lines.len() || rng.chance(2, 3) { user.push_str(eol); }
+        }
+        let name = "t.hcl";
+        let contents = FileContents::new_from_data(pre, &user, name);
+        let res = catch_unwind(AssertUnwindSafe(|| {
+            match parse_y86_hcl(&contents) {
+                Ok(_) => (String::from("accepted"), Vec::new(), Vec::new()),
+                Err(e) => {
+                    let mut buf: Vec<u8> = Vec::new();
+                    e.format_for_contents(&mut buf, &contents).unwrap();
+                    let text = String::from_utf8_lossy(&buf).into_owned();
+                    let nerr = text.lines().filter(|l| l.starts_with("error:")).count();
+                    let mut spans: Vec<(usize, usize)> = Vec::new();
+                    for d in hclrs::verif_hooks::error_summary(&e) { for sp in d.spans { spans.push(sp); } }
+                    (format!("err errors={}", std::cmp::min(nerr, 1)), regions_of(&text), spans)
+                }
+            }
+        }));
+        let (result, shown, spans) = match res { Ok(x) => x, Err(_) => (String::from("PANIC"), Vec::new(), Vec::new()) };
+        let bl = |b: &[u8]| b.iter().map(|x| x.to_string()).collect::<Vec<_>>().join(" ");
+        let mut shown_hex: Vec<String> = shown.iter().map(|r| hex_of(r.as_bytes())).collect();
+        shown_hex.sort();
+        let result = if result.starts_with("err") { format!("{} shown={}", result, shown_hex.len()) } else { result };
+        emit(format!("(diag (prelen {}) (user {}) (name {}) (kind {}) (planted {} {}) (spans {}) (shown {}))",
+                     pre.len(), bl(user.as_bytes()), bl(name.as_bytes()), kname, fault_off + tok_col, fault_off + tok_col + tok_len,
+                     spans.iter().map(|(a, b)| format!("({} {})", a, b)).collect::<Vec<_>>().join(" "),
+                     shown_hex.join(" ")), result);
+    }
+}
+
 fn strip_spans(sexp: &str) -> String {
     // "(tag S E " -> "(tag "
     let mut out = String::new();
